@@ -25,7 +25,8 @@ Init == n = 0 /\ par = <<>> /\ kind = <<>> /\ akind \in AKinds /\ hkind \in Host
 Count(kd) == Cardinality({k \in 1..n : kind[k] = kd})
 Add(p, kd) == /\ n < MaxN
               /\ (IF p = 0 THEN TRUE ELSE kind[p] = "g")
-              /\ (kd \in {"rA", "rB"} => Count(kd) = 0)            \* each column referenced at most once
+              /\ (kd = "rA" => Count(kd) <= 1)                    \* column A may be referenced twice in one template,
+              /\ (kd = "rB" => Count(kd) = 0)                     \* column B at most once
               /\ n' = n + 1 /\ par' = Append(par, p) /\ kind' = Append(kind, kd)
               /\ UNCHANGED <<akind, hkind, h2>>
 Next == \E p \in 0..n, kd \in TKinds : Add(p, kd)
